@@ -146,6 +146,33 @@ func rulePushGate(c *chk.Ctx) {
 			})
 		}
 	}
+	// an exported method that merely calls another entry point (a convenience wrapper around
+	// Notify or Callback) is judged where that entry point is
+	{
+		isEntry := map[*ssa.Function]bool{}
+		for _, e := range entries {
+			isEntry[e.f] = true
+		}
+		var kept []entry
+		for _, e := range entries {
+			viaOther, own := false, false
+			ir.Calls(e.f, func(ci ssa.CallInstruction) {
+				if g := ci.Common().StaticCallee(); g != nil && g != e.f && isEntry[g] {
+					viaOther = true
+				}
+			})
+			for _, b := range e.builds {
+				if b.Parent() == e.f {
+					own = true
+				}
+			}
+			if viaOther && !own {
+				continue
+			}
+			kept = append(kept, e)
+		}
+		entries = kept
+	}
 	if len(entries) < 2 {
 		c.Undecided("WHO.push", nil, "push callers", 0, "found %d push entry points (want 2: Notify, Callback)", len(entries))
 	}
